@@ -122,6 +122,24 @@ func (p *Prog) expr(v ssa.Value, onPath map[ssa.Value]bool, depth int) *Expr {
 	case *ssa.IndexAddr:
 		return &Expr{Op: "index", Args: []*Expr{p.baseOf(v.X, v, onPath, depth), sub(v.Index)}, Val: v}
 	case *ssa.Index:
+		// an element of a local array literal of constants: the constant, or
+		// the alternatives in array order when the index varies
+		if ld, ok := v.X.(*ssa.UnOp); ok && ld.Op == token.MUL {
+			if al, ok := ld.X.(*ssa.Alloc); ok {
+				if elems := constTable(al, ld); elems != nil {
+					if c, ok := v.Index.(*ssa.Const); ok && c.Value != nil {
+						if k, ok := constant.Int64Val(c.Value); ok && k >= 0 && int(k) < len(elems) {
+							return sub(elems[k])
+						}
+					}
+					e := &Expr{Op: "phi", Name: "table", Val: v}
+					for _, el := range elems {
+						e.Args = append(e.Args, sub(el))
+					}
+					return e
+				}
+			}
+		}
 		return &Expr{Op: "index", Args: []*Expr{sub(v.X), sub(v.Index)}, Val: v}
 	case *ssa.Lookup:
 		return &Expr{Op: "lookup", Args: []*Expr{sub(v.X), sub(v.Index)}, Val: v}
@@ -423,12 +441,14 @@ func (p *Prog) reachingDefs(load ssa.Instruction, root *ssa.Alloc) (defs []cellD
 	if load.Parent() != owner {
 		// a load inside a literal: what reaches the literal's creation, plus
 		// anything the owner may store afterwards.
-		fn := load.Parent()
-		for fn.Parent() != nil && fn.Parent() != owner {
-			fn = fn.Parent()
+		// (the chain of creating instructions is followed, not the syntactic
+		// nesting: a literal of an inlined helper is created in the function the
+		// helper was inlined into)
+		mc := p.parents[load.Parent()]
+		for d := 0; mc != nil && mc.Parent() != owner && d < 8; d++ {
+			mc = p.parents[mc.Parent()]
 		}
-		mc := p.parents[fn]
-		if mc == nil {
+		if mc == nil || mc.Parent() != owner {
 			return ci.defs, true
 		}
 		start, forward = mc, true
@@ -755,3 +775,82 @@ func (p *Prog) ReachingStores(load *ssa.UnOp) (vals []ssa.Value, complete bool) 
 
 // ClosureOf returns the MakeClosure that creates function literal fn.
 func (p *Prog) ClosureOf(fn *ssa.Function) *ssa.MakeClosure { return p.parents[fn] }
+
+// constTable: al is a local array filled, before the load ld of the whole
+// array, by exactly one store of a constant per element through constant
+// indexes, and used for nothing else. It returns the element values in order.
+func constTable(al *ssa.Alloc, ld *ssa.UnOp) []ssa.Value {
+	at, ok := al.Type().Underlying().(*types.Pointer).Elem().Underlying().(*types.Array)
+	if !ok || at.Len() == 0 || at.Len() > 64 {
+		return nil
+	}
+	elems := make([]ssa.Value, at.Len())
+	for _, ref := range *al.Referrers() {
+		switch r := ref.(type) {
+		case *ssa.IndexAddr:
+			c, ok := r.Index.(*ssa.Const)
+			if !ok || c.Value == nil {
+				return nil
+			}
+			k, ok := constant.Int64Val(c.Value)
+			if !ok || k < 0 || k >= at.Len() || len(*r.Referrers()) != 1 {
+				return nil
+			}
+			st, ok := (*r.Referrers())[0].(*ssa.Store)
+			if !ok || st.Addr != ssa.Value(r) || elems[k] != nil || st.Block() != ld.Block() {
+				return nil
+			}
+			if _, isConst := st.Val.(*ssa.Const); !isConst {
+				return nil
+			}
+			// the store precedes the load
+			before := false
+			for _, in := range ld.Block().Instrs {
+				if in == ssa.Instruction(st) {
+					before = true
+				}
+				if in == ssa.Instruction(ld) {
+					break
+				}
+			}
+			if !before {
+				return nil
+			}
+			elems[k] = st.Val
+		case *ssa.UnOp:
+			if r != ld {
+				return nil
+			}
+		default:
+			return nil
+		}
+	}
+	for _, e := range elems {
+		if e == nil {
+			return nil
+		}
+	}
+	return elems
+}
+
+// WithCreator evaluates f with the free variables of the literal mc creates
+// resolved through mc's bindings. A literal has one creating instruction in
+// source, but after flattening a helper that contains it may have been inlined
+// at several call sites, each copy with bindings of its own.
+func (p *Prog) WithCreator(mc *ssa.MakeClosure, f func()) {
+	fn, ok := mc.Fn.(*ssa.Function)
+	if !ok {
+		f()
+		return
+	}
+	old, had := p.parents[fn]
+	p.parents[fn] = mc
+	defer func() {
+		if had {
+			p.parents[fn] = old
+		} else {
+			delete(p.parents, fn)
+		}
+	}()
+	f()
+}
